@@ -250,6 +250,54 @@ func VerifVamanaSearch() {
 		}
 		vassert("result-set-contains-result", rset.Contains(r.NodeId))
 	}
+	// exactness when the search window holds the whole graph: every node reachable from the entry
+	// node is visited, so the answer is the exact top-k of the reachable stored points
+	if !useFilter && searchSize >= n+1 {
+		reach := [vMaxId + 1]bool{}
+		reach[STARTID] = true
+		for round := 0; round <= n; round++ {
+			for id := uint64(1); id <= top; id++ {
+				if !reach[id] {
+					continue
+				}
+				if node, err := g.iv.nodeStore.Get(id); err == nil && node != nil {
+					for _, e := range node.edges {
+						if e <= vMaxId {
+							reach[e] = true
+						}
+					}
+				}
+			}
+		}
+		reachable := 0
+		for id := uint64(2); id <= top; id++ {
+			if reach[id] {
+				reachable++
+			}
+		}
+		want := reachable
+		if want > limit {
+			want = limit
+		}
+		vassert("window-covering-the-graph-gives-exact-knn-count-of-reachable-points", len(res) == want)
+		if len(res) > 0 && res[len(res)-1].Distance != nil {
+			worst := *res[len(res)-1].Distance
+			for id := uint64(2); id <= top; id++ {
+				if !reach[id] {
+					continue
+				}
+				found := false
+				for _, r := range res {
+					if r.NodeId == id {
+						found = true
+					}
+				}
+				if !found {
+					vassert("window-covering-the-graph-omits-nothing-nearer", g.vs.qdist(id) >= worst)
+				}
+			}
+		}
+	}
 	// exactness for a filter smaller than the search window: exact top-k of the filter members
 	if useFilter {
 		members := 0
